@@ -87,7 +87,8 @@ func serializeIdentifier(value string) string {
 	case '\f':
 		suffix = `\C `
 	case '0', '1', '2', '3', '4', '5', '6', '7', '8', '9':
-		suffix = fmt.Sprintf("\\%X", c)
+		// the space ends the escape: "\30ab" would be a single code point
+		suffix = fmt.Sprintf("\\%X ", c)
 	default:
 		if c > 0x7F {
 			suffix = string(c)
